@@ -117,7 +117,9 @@ def main(tier_):
                     c["faults"] = [dict(call=j, nr="openat2", errno=11, count=n)]
                     c["meta"] = dict(bc["meta"], kind="eagain", call=j, site="openat2", errno=11, n=n, base=bc["id"])
                     cases.append(c)
-            if sites and (not quick or rnd.random() < 0.25):
+            # descriptor exhaustion from the first syscall of every call of a fresh process (first-use initialisation of the
+            # global procfs handle with every fallback failing) is always run; elsewhere the quick tier samples
+            if sites and (not quick or bc.get("cold") or rnd.random() < 0.25):
                 for frm in ([0] if quick else sorted({0, len(sites) // 3, 2 * len(sites) // 3})):
                     c = copy.deepcopy(bc)
                     c["id"] = "exhaust|%s|%s|%s|c%d|from%d" % (bc["meta"]["scenario"], bc["meta"]["feat"], "cold" if bc.get("cold") else "warm", j, frm)
